@@ -55,12 +55,15 @@ const (
 var ctlName = []string{"Sync", "close+reopen", "install-snapshot(snapshot-format)", "install-snapshot(checkpoint-format)"}
 
 type Case struct {
-	Family string   `json:"family,omitempty"` // "" = the enumerated histories, "large" = the memtable-filling history
-	Steps  []int    `json:"steps"`
-	Crash  int      `json:"crash"`            // op number at which syncs stop being effective
-	Crash2 int      `json:"crash2,omitempty"` // second crash (op number in recovery phase), -1 none
-	Desc   []string `json:"desc,omitempty"`
-	Op     string   `json:"op,omitempty"`
+	Family string `json:"family,omitempty"` // "" = the enumerated histories, "large" = the memtable-filling history
+	Steps  []int  `json:"steps"`
+	Crash  int    `json:"crash"`            // op number at which syncs stop being effective
+	Crash2 int    `json:"crash2,omitempty"` // second crash (op number in recovery phase), -1 none
+	// Process: the (first) crash is a crash of the process - nothing the file system was told before
+	// the crash point is lost, whether synced or not (the in-process memtable is)
+	Process bool     `json:"process_crash,omitempty"`
+	Desc    []string `json:"desc,omitempty"`
+	Op      string   `json:"op,omitempty"`
 }
 
 type logEntry struct {
@@ -461,6 +464,22 @@ func runHistoryFam(r *evid.Run, family string, its []item, steps []int, repeated
 			r.Cap("deadline inside crash enumeration")
 			return
 		}
+		// the same crash point as a crash of the process (nothing handed to the file system is lost)
+		if family == "" {
+			cp := Case{Family: family, Steps: steps, Crash: k, Crash2: -1, Process: true}
+			vsp, outp, _ := RunCase(its, p, cp, num, oplog)
+			r.Outcome(fmt.Sprintf("%v|%d|process|%s", steps, k, outp), true)
+			r.AddExtra("process_crash_runs", 1)
+			if len(vsp) > 0 {
+				cp.Desc = descr(its, steps)
+				if k < len(oplog) {
+					cp.Op = oplog[k].Kind + " " + oplog[k].Path
+				}
+				for _, v := range vsp {
+					r.Violate(prefix+"process-crash/"+v.sig, v.detail+fmt.Sprintf(" [history %v, process crash before op %d (%s)]", cp.Desc, k, cp.Op), cp)
+				}
+			}
+		}
 		c := Case{Family: family, Steps: steps, Crash: k, Crash2: -1}
 		vs, outcome, recOps := RunCase(its, p, c, num, oplog)
 		r.Outcome(fmt.Sprintf("%v|%d|%s", steps, k, outcome), true)
@@ -499,6 +518,7 @@ func RunCase(its []item, p *plan, c Case, num execResult, oplog []fsmx.Op) (vs [
 	for attempt := 0; attempt < 3; attempt++ {
 		env := fsmx.NewEnv()
 		env.FS.Keep = true
+		env.FS.KeepCache = c.Process
 		env.FS.Arm(c.Crash)
 		res := exec(its, p, env)
 		// determinism guard: the armed run must have issued the same ops up to the crash point
@@ -540,7 +560,7 @@ func Run(r *evid.Run) {
 	if r.Thorough() {
 		depth = 3
 	}
-	r.Rule(fmt.Sprintf("histories = every sequence of length 0..%d over %d steps (10 apply calls: put, overwrite, delete, range delete, two-put transaction, put batch, sequence with leader index, two entries in one call, and two that write no user data - a no-op with leader index and a transaction that fails into an empty branch; 4 controls: Sync, clean close+reopen, snapshot install from a donor one entry ahead in both formats), starting from a never-opened table on a strict in-memory FS with only the base directory durable. For EVERY mutating FS operation boundary k (create/write/sync/rename/remove/link/mkdir/dir-sync, first open and final close included) the history is re-run with syncs ineffective from k on, unsynced state dropped, the table reopened and checked (index = stored index, content = model prefix at that index, not inside an apply call, >= last completed sync/close/install, leader index), the rest of the log re-applied and compared with the no-crash run. Plus one memtable-filling history (20 apply calls of a small plain put followed by a 1MiB put with prev_kv, no sync: pebble flushes on its own in between) with the same enumeration of crash points. Thorough adds a second crash at every operation of the recovery+re-apply phase for histories of length <= 2. Non-trivial: every case (each is a distinct (history, crash point)); distinct = distinct (history, crash point, recovered index) triples", depth, na))
+	r.Rule(fmt.Sprintf("histories = every sequence of length 0..%d over %d steps (10 apply calls: put, overwrite, delete, range delete, two-put transaction, put batch, sequence with leader index, two entries in one call, and two that write no user data - a no-op with leader index and a transaction that fails into an empty branch; 4 controls: Sync, clean close+reopen, snapshot install from a donor one entry ahead in both formats), starting from a never-opened table on a strict in-memory FS with only the base directory durable. For EVERY mutating FS operation boundary k (create/write/sync/rename/remove/link/mkdir/dir-sync, first open and final close included) the history is re-run with syncs ineffective from k on, unsynced state dropped, the table reopened and checked (index = stored index, content = model prefix at that index, not inside an apply call, >= last completed sync/close/install, leader index), the rest of the log re-applied and compared with the no-crash run. Every crash point is explored twice: as a power loss (unsynced state dropped) and as a crash of the process (everything handed to the file system before the point survives, synced or not; later operations are lost). Plus one memtable-filling history (20 apply calls of a small plain put followed by a 1MiB put with prev_kv, no sync: pebble flushes on its own in between) with the same enumeration of crash points. Thorough adds a second crash at every operation of the recovery+re-apply phase for histories of length <= 2. Non-trivial: every case (each is a distinct (history, crash point)); distinct = distinct (history, crash point, recovered index) triples", depth, na))
 	total := par.SeqCount(na, depth)
 	done := par.For(total+1, r.Expired, func(i int64) {
 		if i == 0 {
